@@ -4,6 +4,8 @@
   hold for every continuation `k` and world `w`, hence at every position of every program.
 -/
 import Sq.Machine
+import SqLemmas.LogLemmas
+import SqLemmas.FrameLemmas
 namespace SqProps.C09
 open Sq
 
@@ -79,5 +81,215 @@ theorem raise_skips_pending_args (n : Name) (done : List Val) (todo : List Op) (
 
 theorem raise_skips_rhs (bk : BinK) (b : Op) (vm : Nat) (e : PyErr) (k : List Frame) (w : World) :
     unwind (.binL bk b vm) e k w = mkRaise e k w := rfl
+
+/-! ### whole sub-evaluations (frame lemma)
+
+The statements above are about single transitions.  With the frame lemma (`Sq.run_app`) they lift to
+whole sub-evaluations of arbitrary length: an operand that — run ALONE — returns `v` after `n` steps
+returns the same `v` after the same `n` steps beneath any pending frames, and leaves them untouched. -/
+
+/-- the expression `op`, evaluated alone from world `w`, returns `v` in world `w'` after `n` steps -/
+def EvalsTo (B : List Nat) (op : Op) (vmi : Nat) (w : World) (n : Nat) (v : Val) (w' : World) : Prop :=
+  run n { ctl := .ev op vmi, k := [], w := w, budgets := B } = { ctl := .ret v, k := [], w := w', budgets := B } ∧
+  ∀ i, i < n → ¬ Underflow (run i { ctl := .ev op vmi, k := [], w := w, budgets := B }).core
+
+/-- the expression `op`, evaluated alone from world `w`, raises `e` in world `w'` after `n` steps -/
+def RaisesIn (B : List Nat) (op : Op) (vmi : Nat) (w : World) (n : Nat) (e : PyErr) (w' : World) : Prop :=
+  run n { ctl := .ev op vmi, k := [], w := w, budgets := B } = { ctl := .raise e, k := [], w := w', budgets := B } ∧
+  ∀ i, i < n → ¬ Underflow (run i { ctl := .ev op vmi, k := [], w := w, budgets := B }).core
+
+/-- **evaluation in context**: the pending frames `k0` neither influence a sub-evaluation nor are touched by it -/
+theorem eval_in_context {B op vmi w n v w'} (h : EvalsTo B op vmi w n v w') (k0 : List Frame) :
+    run n { ctl := .ev op vmi, k := k0, w := w, budgets := B } = { ctl := .ret v, k := k0, w := w', budgets := B } := by
+  have := run_app n { ctl := .ev op vmi, k := [], w := w, budgets := B } k0 h.2
+  rw [h.1] at this
+  simpa [Cfg.app] using this
+
+theorem raise_in_context {B op vmi w n e w'} (h : RaisesIn B op vmi w n e w') (k0 : List Frame) :
+    run n { ctl := .ev op vmi, k := k0, w := w, budgets := B } = { ctl := .raise e, k := k0, w := w', budgets := B } := by
+  have := run_app n { ctl := .ev op vmi, k := [], w := w, budgets := B } k0 h.2
+  rw [h.1] at this
+  simpa [Cfg.app] using this
+
+private theorem step_ret (fr : Frame) (v : Val) (k : List Frame) (w : World) (B : List Nat) :
+    step { ctl := .ret v, k := fr :: k, w := w, budgets := B } = (resume fr v k w).withBudgets B := rfl
+
+private theorem step_raise (fr : Frame) (e : PyErr) (k : List Frame) (w : World) (B : List Nat) :
+    step { ctl := .raise e, k := fr :: k, w := w, budgets := B } = (unwind fr e k w).withBudgets B := rfl
+
+/-- **strict binary operator, big step**: once `a` is being evaluated with `b` pending, the machine evaluates `a`
+    completely (its `na` steps, exactly as if alone), then `b` completely (its `nb` steps, in the world `a` left),
+    then applies the operator ONCE to the two values — for operands of any size, under any pending context `k` -/
+theorem strict_bin_big_step (bk : BinK) (h1 : bk ≠ .and) (h2 : bk ≠ .or) {B a b vmi w na va wa nb vb wb}
+    (ha : EvalsTo B a vmi w na va wa) (hb : EvalsTo B b vmi wa nb vb wb) (k : List Frame) :
+    run (na + 1 + nb + 1) { ctl := .ev a vmi, k := .binL bk b vmi :: k, w := w, budgets := B } =
+      (match applyBin wb bk va vb with
+       | .ok (r, w') => mkRet r k w'
+       | .error e => mkRaise e k wb).withBudgets B := by
+  have e1 : run 1 { ctl := .ret va, k := .binL bk b vmi :: k, w := wa, budgets := B } =
+      { ctl := .ev b vmi, k := .binR bk va :: k, w := wa, budgets := B } := by
+    show step _ = _
+    rw [step_ret, strict_bin_left_then_right bk b vmi va k wa h1 h2]; rfl
+  rw [run_add, run_add, run_add, eval_in_context ha, e1, eval_in_context hb]
+  show step _ = _
+  rw [step_ret]
+  simp only [resume]
+  cases hab : applyBin wb bk va vb with
+  | ok r => rfl
+  | error e => rfl
+
+/-- `a and b`, `a` falsy: after `a`'s own steps plus one, the result is `a`'s value; `b` is never entered -/
+theorem and_big_step_lazy {B a b vmi w na va wa} (ha : EvalsTo B a vmi w na va wa)
+    (hf : truthy wa.heap va = false) (k : List Frame) :
+    run (na + 1) { ctl := .ev a vmi, k := .binL .and b vmi :: k, w := w, budgets := B } =
+      (mkRet va k wa).withBudgets B := by
+  rw [run_add, eval_in_context ha]
+  show step _ = _
+  rw [step_ret, and_lazy b vmi va k wa hf]
+
+/-- `a or b`, `a` truthy: likewise -/
+theorem or_big_step_lazy {B a b vmi w na va wa} (ha : EvalsTo B a vmi w na va wa)
+    (hf : truthy wa.heap va = true) (k : List Frame) :
+    run (na + 1) { ctl := .ev a vmi, k := .binL .or b vmi :: k, w := w, budgets := B } =
+      (mkRet va k wa).withBudgets B := by
+  rw [run_add, eval_in_context ha]
+  show step _ = _
+  rw [step_ret, or_lazy b vmi va k wa hf]
+
+/-- `a and b`, `a` truthy: then `b` is evaluated in the world `a` left and ITS value is the result -/
+theorem and_big_step_rhs {B a b vmi w na va wa nb vb wb} (ha : EvalsTo B a vmi w na va wa)
+    (ht : truthy wa.heap va = true) (hb : EvalsTo B b vmi wa nb vb wb) (k : List Frame) :
+    run (na + 1 + nb) { ctl := .ev a vmi, k := .binL .and b vmi :: k, w := w, budgets := B } =
+      { ctl := .ret vb, k := k, w := wb, budgets := B } := by
+  have e1 : run 1 { ctl := .ret va, k := .binL .and b vmi :: k, w := wa, budgets := B } =
+      { ctl := .ev b vmi, k := k, w := wa, budgets := B } := by
+    show step _ = _
+    rw [step_ret, and_takes_rhs b vmi va k wa ht]; rfl
+  rw [run_add, run_add, eval_in_context ha, e1]
+  exact eval_in_context hb k
+
+theorem or_big_step_rhs {B a b vmi w na va wa nb vb wb} (ha : EvalsTo B a vmi w na va wa)
+    (ht : truthy wa.heap va = false) (hb : EvalsTo B b vmi wa nb vb wb) (k : List Frame) :
+    run (na + 1 + nb) { ctl := .ev a vmi, k := .binL .or b vmi :: k, w := w, budgets := B } =
+      { ctl := .ret vb, k := k, w := wb, budgets := B } := by
+  have e1 : run 1 { ctl := .ret va, k := .binL .or b vmi :: k, w := wa, budgets := B } =
+      { ctl := .ev b vmi, k := k, w := wa, budgets := B } := by
+    show step _ = _
+    rw [step_ret, or_takes_rhs b vmi va k wa ht]; rfl
+  rw [run_add, run_add, eval_in_context ha, e1]
+  exact eval_in_context hb k
+
+/-- `x if c else y`: the condition completely, then exactly the chosen branch, in the world the condition left;
+    the branch not chosen contributes no step at all (the step count is `nc + 1 + nx`) -/
+theorem ifexpr_big_step {B c x y vmi w nc vc wc nx vx wx} (hc : EvalsTo B c vmi w nc vc wc)
+    (hx : EvalsTo B (if truthy wc.heap vc then x else y) vmi wc nx vx wx) (k : List Frame) :
+    run (nc + 1 + nx) { ctl := .ev c vmi, k := .ifK x y vmi :: k, w := w, budgets := B } =
+      { ctl := .ret vx, k := k, w := wx, budgets := B } := by
+  have e1 : run 1 { ctl := .ret vc, k := .ifK x y vmi :: k, w := wc, budgets := B } =
+      { ctl := .ev (if truthy wc.heap vc then x else y) vmi, k := k, w := wc, budgets := B } := by
+    show step _ = _
+    rw [step_ret, ifexpr_one_branch x y vmi vc k wc]; rfl
+  rw [run_add, run_add, eval_in_context hc, e1]
+  exact eval_in_context hx k
+
+/-- an operand that raises aborts the strict operator before the right operand is entered: after `a`'s own steps
+    plus one the exception is propagating out of the operator's frame, whatever `b` is -/
+theorem strict_bin_left_raises (bk : BinK) {B a b vmi w na e wa} (ha : RaisesIn B a vmi w na e wa) (k : List Frame) :
+    run (na + 1) { ctl := .ev a vmi, k := .binL bk b vmi :: k, w := w, budgets := B } =
+      (mkRaise e k wa).withBudgets B := by
+  rw [run_add, raise_in_context ha]
+  show step _ = _
+  rw [step_raise, raise_skips_rhs bk b vmi e k wa]
+
+/-- the expressions `ops`, evaluated one after the other (each alone, each in the world its predecessor left),
+    return the values `vs`; `n` is the total number of steps including one hand-over step after each -/
+inductive EvalsSeq (B : List Nat) (vmi : Nat) : World → List Op → Nat → List Val → World → Prop
+  | nil (w : World) : EvalsSeq B vmi w [] 0 [] w
+  | cons {w a n v w1 rest m vs w2} : EvalsTo B a vmi w n v w1 → EvalsSeq B vmi w1 rest m vs w2 →
+      EvalsSeq B vmi w (a :: rest) (n + 1 + m) (v :: vs) w2
+
+/-- **call arguments, big step**: with any number of arguments of any size, the machine evaluates them one after
+    the other in source order, each exactly once and completely before the next is entered, and only then looks
+    the callee up and calls it with the values in source order -/
+theorem args_big_step (nm : Name) {B vmi} (k : List Frame) (rest : List Op) :
+    ∀ (done : List Val) {a w n v w1 m vs w2}, EvalsTo B a vmi w n v w1 → EvalsSeq B vmi w1 rest m vs w2 →
+    run (n + 1 + m) { ctl := .ev a vmi, k := .argsK nm done rest vmi :: k, w := w, budgets := B } =
+      (doCall nm (done.reverse ++ v :: vs) vmi k w2).withBudgets B := by
+  induction rest with
+  | nil =>
+    intro done a w n v w1 m vs w2 ha hs
+    cases hs
+    rw [run_add (n + 1) 0, run_add n 1, eval_in_context ha]
+    show step _ = _
+    rw [step_ret, call_after_last_arg]
+    simp
+  | cons b rest ih =>
+    intro done a w n v w1 m vs w2 ha hs
+    cases hs with
+    | cons hb hs' =>
+      have e1 : run 1 { ctl := .ret v, k := .argsK nm done (b :: rest) vmi :: k, w := w1, budgets := B } =
+          { ctl := .ev b vmi, k := .argsK nm (v :: done) rest vmi :: k, w := w1, budgets := B } := rfl
+      rename_i n' v' w1' m' vs'
+      rw [run_add (n + 1) (n' + 1 + m'), run_add n 1, eval_in_context ha, e1, ih (v :: done) hb hs']
+      simp
+
+/-- a whole call expression: `f(a, rest…)` -/
+theorem call_big_step (nm : Name) {B vmi a rest w n v w1 m vs w2} (k : List Frame)
+    (ha : EvalsTo B a vmi w n v w1) (hs : EvalsSeq B vmi w1 rest m vs w2) :
+    run (n + 1 + m) ((enter (.call nm (a :: rest)) vmi k w).withBudgets B) =
+      (doCall nm (v :: vs) vmi k w2).withBudgets B := by
+  have := args_big_step nm k rest [] ha hs
+  simp only [List.reverse_nil, List.nil_append] at this
+  exact this
+
+/-- what a dict literal does once all its parts are values: build the dict (casting keys), allocate it -/
+def dictFinish (parts : List Val) (k : List Frame) (w : World) : Core :=
+  match buildDict w.heap parts [] with
+  | .error e => mkRaise e k w
+  | .ok kvs => mkRet (.ref (w.heap.alloc (.dict kvs)).2) k { w with heap := (w.heap.alloc (.dict kvs)).1 }
+
+theorem dict_after_last_part (done : List Val) (vmi : Nat) (v : Val) (k : List Frame) (w : World) :
+    resume (.dictK done [] vmi) v k w = dictFinish (v :: done).reverse k w := by
+  unfold dictFinish
+  simp only [resume]
+  cases buildDict w.heap (v :: done).reverse [] <;> rfl
+
+/-- **dict literal, big step**: the parts k₁, v₁, k₂, v₂, … are evaluated in source order, each once and completely
+    before the next, and the dict is built from the values in source order afterwards -/
+theorem dict_big_step {B vmi} (k : List Frame) (rest : List Op) :
+    ∀ (done : List Val) {a w n v w1 m vs w2}, EvalsTo B a vmi w n v w1 → EvalsSeq B vmi w1 rest m vs w2 →
+    run (n + 1 + m) { ctl := .ev a vmi, k := .dictK done rest vmi :: k, w := w, budgets := B } =
+      (dictFinish (done.reverse ++ v :: vs) k w2).withBudgets B := by
+  induction rest with
+  | nil =>
+    intro done a w n v w1 m vs w2 ha hs
+    cases hs
+    rw [run_add (n + 1) 0, run_add n 1, eval_in_context ha]
+    show step _ = _
+    rw [step_ret, dict_after_last_part]
+    simp
+  | cons b rest ih =>
+    intro done a w n v w1 m vs w2 ha hs
+    cases hs with
+    | cons hb hs' =>
+      have e1 : run 1 { ctl := .ret v, k := .dictK done (b :: rest) vmi :: k, w := w1, budgets := B } =
+          { ctl := .ev b vmi, k := .dictK (v :: done) rest vmi :: k, w := w1, budgets := B } := rfl
+      rename_i n' v' w1' m' vs'
+      rw [run_add (n + 1) (n' + 1 + m'), run_add n 1, eval_in_context ha, e1, ih (v :: done) hb hs']
+      simp
+
+/-- a world with one VM state and a host scope -/
+def w1 : World := { heap := #[.dict []], vms := [{ scopes := [0], ops := 0 }], log := [], rng := 0, rx := [], probes := [] }
+
+/-- non-vacuity: `None` evaluates alone in one step (charge + enter) when the budget allows -/
+example : ∃ w', EvalsTo [100] (.value .none) 0 w1 1 .none w' := by
+  refine ⟨(run 1 { ctl := .ev (.value .none) 0, k := [], w := w1, budgets := [100] }).w, rfl, ?_⟩
+  intro i hi
+  have : i = 0 := by omega
+  subst this
+  intro ⟨_, h⟩
+  rcases h with ⟨v, hv⟩ | ⟨e, he⟩
+  · cases hv
+  · cases he
 
 end SqProps.C09
